@@ -529,7 +529,7 @@ bool pd_ext_e(int nt, char **tok)
     }
     if (!strcmp(c, "xreset")) {
         /* let pending out-of-band messages (source end, last reference) through */
-        for (int it = 0; it < 64; it++) {
+        for (int it = 0; it < 8192; it++) {
             unsigned a = loops[0] ? vloop_run_once(loops[0]) : 0;
             unsigned b = loops[1] ? vloop_run_once(loops[1]) : 0;
             if (!a && !b) break;
